@@ -219,6 +219,25 @@ func cmdCheck(args []string) int {
 	}
 	var results []*obligationResult
 	e.slots = make(chan struct{}, e.workers)
+	// encoder validation runs alongside: the repository's own crypto-free tests
+	// executed inside the engine (DESIGN 4.5)
+	selfCh := make(chan string, 1)
+	go func() {
+		cmd := exec.Command(os.Args[0], "selftest")
+		cmd.Env = os.Environ()
+		out, err := cmd.CombinedOutput()
+		lines := strings.Split(strings.TrimSpace(string(out)), "\n")
+		last := lines[len(lines)-1]
+		if err != nil {
+			last = "FAILED: " + last
+			for _, l := range lines {
+				if strings.Contains(l, "FAIL") {
+					last += " | " + l
+				}
+			}
+		}
+		selfCh <- last
+	}()
 	var sel []*ssa.Function
 	for _, h := range hs {
 		if *only != "" && !re.MatchString(h.Name()) {
@@ -306,6 +325,11 @@ func cmdCheck(args []string) int {
 	}
 	exit := 0
 	var inconAll []string
+	selfRes := <-selfCh
+	e.selftest = selfRes
+	if strings.HasPrefix(selfRes, "FAILED") {
+		inconAll = append(inconAll, "encoder self-test (repository tests executed inside the engine) "+selfRes)
+	}
 	if replayFailed != "" {
 		inconAll = append(inconAll, "native replay failed: "+replayFailed)
 	}
